@@ -38,6 +38,9 @@ type c11opt struct {
 	hdrs []c11hdr
 	pmd  bool
 	rbuf int
+	// when set, this very map is handed to every handshake of the option as ClientOption.RequestHeader (an application
+	// that keeps one header set for all its dials, possibly shared between differently configured clients)
+	shared http.Header
 }
 
 func (o *c11opt) build() (*gws.ClientOption, [][2]string) {
@@ -57,6 +60,14 @@ func (o *c11opt) build() (*gws.ClientOption, [][2]string) {
 		cfg = append(cfg, [2]string{k, v[0]})
 	}
 	sort.Slice(cfg, func(i, j int) bool { return cfg[i][0] < cfg[j][0] })
+	if o.shared != nil {
+		if len(o.shared) == 0 {
+			for k, v := range rh {
+				o.shared[k] = append([]string(nil), v...)
+			}
+		}
+		rh = o.shared // cfg stays what the application configured
+	}
 	opt := &gws.ClientOption{Addr: "ws://mem.test/ws", RequestHeader: rh, ReadBufferSize: o.rbuf,
 		PermessageDeflate: gws.PermessageDeflate{Enabled: o.pmd, ServerContextTakeover: true, ClientContextTakeover: true}}
 	return opt, cfg
@@ -128,6 +139,11 @@ func runC11(c *Ctx) error {
 		{desc: "rbuf-65536+pmd", pmd: true, rbuf: 65536},
 		{desc: "rbuf-4097", rbuf: 4097},
 	}
+	// two differently configured clients of one application share one header set
+	sharedHdr := http.Header{}
+	opts = append(opts,
+		&c11opt{desc: "shared-header+pmd", hdrs: []c11hdr{{"X-App", false, "one"}, {"Origin", false, "http://mem.test"}}, pmd: true, shared: sharedHdr},
+		&c11opt{desc: "shared-header-nopmd", hdrs: []c11hdr{{"X-App", false, "one"}, {"Origin", false, "http://mem.test"}}, shared: sharedHdr})
 	nRandom, nKeys := 1500, 2000
 	if !c.quick() {
 		nRandom, nKeys = 80000, 20000
